@@ -234,7 +234,9 @@ def fmtViews (I : Instance) : String :=
     | .single m => "single " ++ " / ".intercalate (m.map fmtNats)
   let obm := " / ".intercalate ((operationsByMachine I).map (fmtRefs I))
   let padded := " / ".intercalate ((durationsMatrixArray I).map fun (row : List (Option Int)) =>
-    " ".intercalate (row.map fmtOptInt))
+    " ".intercalate (row.map fun v => match v with
+      | some x => if x.natAbs ≥ 16777216 then "big" else toString x     -- float32 array: exact below 2^24 only
+      | none => "nan"))
   s!"{I.length} {numMachines I} {numOps I} {isFlexible I} | " ++
   " / ".intercalate ((durationsMatrix I).map fmtInts) ++ s!" | {mm} | {obm} | {fmtInts (machineLoads I)} | " ++
   s!"{fmtInts (maxDurationPerMachine I)} | {fmtInts (jobDurations I)} | {totalDuration I} | " ++
